@@ -20,6 +20,8 @@ Facts:
   change_type_order      the list literal of `for changeType in [...]` in generateAndSendEvents (C03)
   reversed_change_types  change types whose type loop runs over reversed(data.keys())          (C03)
   event_types            Event.EVTYPES                                                          (C02)
+  inband_encoders        constant head / tail of the f-strings JSONEncoder.default returns       (C16)
+  inband_regexes         the patterns _json_parser applies with re.fullmatch                      (C16)
 """
 import ast
 import json
@@ -194,6 +196,27 @@ def f_event_types(repo):
     raise LookupError("EVTYPES")
 
 
+def f_inband(repo):
+    """in-band encodings of serialization.py: constant head/tail of the two f-strings the encoder
+    returns, and the regular expressions the parser applies with re.fullmatch"""
+    tree = _src(repo, "lib/datamodel/serialization.py")
+    enc = []
+    for n in ast.walk(_find_func(_find_class(tree, "JSONEncoder"), "default")):
+        if isinstance(n, ast.Return) and isinstance(n.value, ast.JoinedStr):
+            parts = n.value.values
+            head = parts[0].value if isinstance(parts[0], ast.Constant) else ""
+            tail = parts[-1].value if isinstance(parts[-1], ast.Constant) and len(parts) > 1 else ""
+            enc.append([head, tail])
+    rx = []
+    for n in ast.walk(_find_func(tree, "_json_parser")):
+        if isinstance(n, ast.Call) and isinstance(n.func, ast.Attribute) and n.func.attr == "fullmatch" \
+                and n.args and isinstance(n.args[0], ast.Constant):
+            rx.append(n.args[0].value)
+    if not enc or not rx:
+        raise LookupError("in-band encodings")
+    return enc, rx
+
+
 def extract(repo):
     facts, stale = {}, []
 
@@ -214,6 +237,7 @@ def extract(repo):
     put(["datasource_save_kinds"], f_datasource_save)
     put(["change_type_order", "reversed_change_types", "cycle_bus_calls"], f_server_cycle)
     put(["event_types"], f_event_types)
+    put(["inband_encoders", "inband_regexes"], f_inband)
     return facts, stale
 
 
@@ -242,6 +266,8 @@ def render(facts):
     L.append("Definition reversed_change_types : list string := " + _l(facts["reversed_change_types"]) + ".")
     L.append("Definition cycle_bus_calls : list string := " + _l(facts["cycle_bus_calls"]) + ".")
     L.append("Definition event_types : list string := " + _l(facts["event_types"]) + ".")
+    L.append("Definition inband_encoders : list (string * string) := " + _l(facts["inband_encoders"], pair) + ".")
+    L.append("Definition inband_regexes : list string := " + _l(facts["inband_regexes"]) + ".")
     return "\n".join(L) + "\n"
 
 
@@ -258,7 +284,8 @@ def regenerate(repo, coqdir):
             facts[n] = old[n]
     missing = [n for n in ("fk_policy_table", "merge_bug_pairs", "merge_max_only_pairs", "checkpoint_calls",
                            "save_data_calls", "datasource_save_kinds", "change_type_order",
-                           "reversed_change_types", "cycle_bus_calls", "event_types") if n not in facts]
+                           "reversed_change_types", "cycle_bus_calls", "event_types", "inband_encoders",
+                           "inband_regexes") if n not in facts]
     if missing:
         return False, stale + missing, old
     txt = render(facts)
